@@ -50,6 +50,9 @@ func VX_C03_sort() {
 	conc := false
 	for k, t := range types {
 		cols[k] = vxMakeColLite(t, P)
+		if t == "string" && vx.HasParam("empty") {
+			cols[k] = vxMakeCol("string", P, 1) // cells of 0..1 bytes: empty strings take no room in the column storage
+		}
 		if t == "string" || t == "enum" {
 			conc = true
 		}
@@ -66,7 +69,14 @@ func VX_C03_sort() {
 	for k := range types {
 		orders[k] = Order{Column: names[k], Reverse: flags[2*k] == 'r', NullLast: flags[2*k+1] == 'n'}
 	}
-	r := f.Sort(orders...)
+	given := orders
+	if vx.HasParam("repeat") {
+		// the first key again at the end with the opposite flags: the first occurrence decides
+		again := orders[0]
+		again.Reverse, again.NullLast = !again.Reverse, !again.NullLast
+		given = append(append([]Order{}, orders...), again)
+	}
+	r := f.Sort(given...)
 	vx.Check(r.Err == nil, "no error")
 	out := r.index
 	vx.Check(len(out) == n, "all rows returned")
